@@ -645,6 +645,63 @@ mod real {
                     }
                 }
             }
+            // ---- a burst from several OS threads at once (true parallelism in the registration bookkeeping): each thread creates and
+            // drops streams over the same two rules; what a thread still holds at the end joins the live handles
+            if !last && rng.chance(1, 4) {
+                let threads = 2 + rng.usize_below(3);
+                let mut joins = Vec::new();
+                for t in 0..threads {
+                    let c = conn.clone();
+                    let rules = stream_rules.clone();
+                    let mut trng = Rng::new(rng.next_u64());
+                    joins.push(std::thread::spawn(move || {
+                        let mut kept: Vec<(usize, MessageStream)> = Vec::new();
+                        let mut problems = Vec::new();
+                        for _ in 0..4 + trng.usize_below(6) {
+                            let rule = trng.usize_below(2);
+                            let text = rules[rule].clone();
+                            let c2 = c.clone();
+                            match zbus::block_on(async move { MessageStream::for_match_rule(text.as_str(), &c2, None).await }) {
+                                Ok(s) => kept.push((rule, s)),
+                                Err(e) => problems.push(format!("thread {t}: {e}")),
+                            }
+                            if trng.chance(2, 3) && !kept.is_empty() {
+                                let k = trng.usize_below(kept.len());
+                                let (_, s) = kept.remove(k);
+                                if trng.bool() {
+                                    drop(s);
+                                } else {
+                                    zbus::block_on(s.async_drop());
+                                }
+                            }
+                        }
+                        while kept.len() > 1 {
+                            kept.pop();
+                        }
+                        (kept, problems)
+                    }));
+                }
+                let mut kept_total = 0;
+                for j in joins {
+                    match j.join() {
+                        Ok((kept, problems)) => {
+                            if let Some(p) = problems.first() {
+                                return Err(format!("for_match_rule failed on the real bus in a burst: {p}"));
+                            }
+                            for (rule, s) in kept {
+                                next_origin += 1;
+                                handles.push(Handle::Stream { rule, origin: next_origin, s });
+                                kept_total += 1;
+                            }
+                        }
+                        // a panic inside the library on a burst thread is the library's: let the case guard report it
+                        Err(e) => std::panic::resume_unwind(e),
+                    }
+                }
+                ctx.count("real_parallel_bursts", 1);
+                log.push(format!("r{round}: burst of {threads} threads creating/dropping streams over rules 0 and 1; {kept_total} kept"));
+                shape.push_str(&format!("B{threads}{kept_total}"));
+            }
             // ---- the quiescent point: what the daemon holds must converge to the connection's own table
             // independently created streams with a live handle (a clone shares its original's registration)
             let mut origins: std::collections::BTreeSet<(usize, u32)> = Default::default();
